@@ -63,9 +63,9 @@ theorem inst_unique {sn : String} {is : List Inst} (ok : SnapOK sn is) {i j : In
         fun x hx y hy => ok.nodeChks x (by simp [hx]) y (by simp [hy])⟩ hi hj this.2
 
 theorem regsOK {c : Cat} {p sn : String} {st : List CSN} {snap : Snap} {is : List Inst}
-    (ok : SnapOK sn is) (hs : SnapIs snap is) (fr : Fresh c p is) (nt : NoTheft c p sn is) :
+    (ok : SnapOK sn is) (hs : SnapIs snap is) (fr : Fresh c p is) :
     RegsOK c p (snap.flatMap (regOpsNode p st)) := by
-  refine ⟨regOps_regs p st snap, ?_, ?_, ?_, ?_, ?_, ?_, ?_, ?_⟩
+  refine ⟨regOps_regs p st snap, ?_, ?_, ?_, ?_, ?_, ?_, ?_⟩
   · intro r hr hne e he hep hei
     obtain ⟨_, ⟨i, hi, e1⟩, _, _⟩ := op_inst hs hr
     rw [e1] at hne hei ⊢
@@ -99,14 +99,6 @@ theorem regsOK {c : Cat} {p sn : String} {st : List CSN} {snap : Snap} {is : Lis
     have e1 := (ok.chk i hi k hki).2.1
     have e2 := (ok.chk j hj k' hkj).2.1
     exact ok.cross i hi j hj (by rw [← e1, ← e2]; exact hn) k hki k' hkj hc
-  · intro r hr k hk hne s hs1 hsp hsn hsi
-    obtain ⟨_, _, _, h1⟩ := op_inst hs hr
-    obtain ⟨i, hi, _, hki⟩ := h1 k hk
-    obtain ⟨_, e1, _, e2⟩ := ok.chk i hi k hki
-    rcases e2 with e2 | ⟨e2, e3⟩
-    · exact absurd e2 hne
-    · rw [e3, (ok.inst i hi).2.2]
-      exact nt s hs1 hsp i hi (by rw [hsn, e1]) (by rw [hsi, e2])
   · intro r r' sd hr hr' k hk hne hsd hn hsi
     obtain ⟨_, _, _, h1⟩ := op_inst hs hr
     obtain ⟨_, _, h2, _⟩ := op_inst hs hr'
@@ -197,6 +189,106 @@ theorem chkUnchanged_stored {c : Cat} {p sn : String} {st : List CSN} (hst : csn
     · cases h
   · cases h
 
+/-! ### every service check of the snapshot finds its service row -/
+
+/-- what the prior catalog tells about a (node, id): an instance of `sn` is stored there -/
+def K0 (c : Cat) (p sn : String) : String → String → String → Prop :=
+  fun n i nm => nm = sn ∧ (∃ s ∈ c.svcs, s.peer = p ∧ s.node = n ∧ s.sid = i) ∧
+    ∀ s ∈ c.svcs, s.peer = p → s.node = n → s.sid = i → s.name = sn
+
+theorem K0_kl (c : Cat) (p sn : String) : KL c p (K0 c p sn) := by
+  rintro n i nm ⟨rfl, h1, h2⟩; exact ⟨h1, h2⟩
+
+theorem Pres.node {c : Cat} {p sn : String} {st : List CSN} {snap : Snap} {is : List Inst} (wf : WF c)
+    (ok : SnapOK sn is) (hs : SnapIs snap is) (hst : csn c p sn = .ok st) {nd : SNode} (hnd : nd ∈ snap)
+    {K : String → String → String → Prop} (hK : ∀ n i nm, K0 c p sn n i nm → K n i nm) :
+    Pres K (regOpsNode p st nd) := by
+  -- split the command list of the node into the registrations without checks and the final check registration
+  have hsplit : ∃ a b, regOpsNode p st nd = a ++ b ∧ (∀ r, Op.reg r ∈ a → r.chks = []) ∧
+      (∀ ss ∈ nd.svcs, svcUnchanged st nd.node.name ss.svc = false → addsKey a nd.node.name ss.svc.sid ss.svc.name) ∧
+      (∀ r, Op.reg r ∈ b → r.svc = none ∧ ∀ k ∈ r.chks, ∃ ss ∈ nd.svcs, k ∈ ss.chks) ∧ b.length ≤ 1 := by
+    refine ⟨(if nodeUnchanged st nd.node then [] else [Op.reg ⟨p, nd.node, none, []⟩]) ++
+        (nd.svcs.filter fun ss => !svcUnchanged st nd.node.name ss.svc).map fun ss => Op.reg ⟨p, nd.node, some ss.svc, []⟩,
+      (if (nd.svcs.flatMap fun ss => ss.chks.filter fun k => !chkUnchanged st nd.node.name ss.svc.sid k).isEmpty then []
+       else [Op.reg ⟨p, nd.node, none, nd.svcs.flatMap fun ss => ss.chks.filter fun k => !chkUnchanged st nd.node.name ss.svc.sid k⟩]),
+      by simp only [regOpsNode, List.append_assoc], ?_, ?_, ?_, ?_⟩
+    · intro r hr
+      simp only [List.mem_append, List.mem_map, List.mem_filter] at hr
+      rcases hr with hr | ⟨ss, _, hr⟩
+      · split at hr
+        · cases hr
+        · simp only [List.mem_singleton, Op.reg.injEq] at hr; subst hr; rfl
+      · simp only [Op.reg.injEq] at hr; subst hr; rfl
+    · intro ss hss hu
+      refine ⟨⟨p, nd.node, some ss.svc, []⟩, ss.svc, ?_, rfl, rfl, rfl, rfl⟩
+      simp only [List.mem_append, List.mem_map, List.mem_filter]
+      exact Or.inr ⟨ss, ⟨hss, by simp [hu]⟩, rfl⟩
+    · intro r hr
+      split at hr
+      · cases hr
+      · simp only [List.mem_singleton, Op.reg.injEq] at hr; subst hr
+        refine ⟨rfl, fun k hk => ?_⟩
+        simp only [List.mem_flatMap, List.mem_filter] at hk
+        obtain ⟨ss, hss, hk, _⟩ := hk
+        exact ⟨ss, hss, hk⟩
+    · split <;> simp
+  obtain ⟨a, b, e, ha, hadd, hb, hlen⟩ := hsplit
+  rw [e, Pres.append]
+  refine ⟨Pres.nochk a ha, ?_⟩
+  match b, hb, hlen with
+  | [], _, _ => trivial
+  | [o], hb, _ =>
+    cases o with
+    | reg r =>
+      simp only [Pres, and_true]
+      intro k hk hne
+      left
+      obtain ⟨hsv, hck⟩ := hb r (by simp)
+      obtain ⟨ss, hss, hks⟩ := hck k hk
+      obtain ⟨i, hi, e1, e2, e3⟩ := hs.fwd nd hnd ss hss
+      obtain ⟨_, hkn, _, hksid⟩ := ok.chk i hi k (by rw [← e3]; exact hks)
+      have hsid : k.sid = ss.svc.sid ∧ k.sname = ss.svc.name := by
+        rcases hksid with h | ⟨h1, h2⟩
+        · exact absurd h hne
+        · exact ⟨by rw [h1, e2], by rw [h2, e2]⟩
+      have hnn : k.node = nd.node.name := by rw [hkn, e1]
+      have hname : ss.svc.name = sn := by rw [e2]; exact (ok.inst i hi).2.2
+      cases hu : svcUnchanged st nd.node.name ss.svc with
+      | true =>
+        left
+        apply hK
+        have hrow := svcUnchanged_stored hst hu
+        refine ⟨by rw [hsid.2, hname], ⟨_, hrow, rfl, by simp [svcRow, hnn], by simp [svcRow, hsid.1]⟩, ?_⟩
+        intro s hs1 b1 b2 b3
+        rw [wf.svcs s hs1 _ hrow (by simp [svcRow, b1]) (by simp [svcRow, b2, hnn]) (by simp [svcRow, b3, hsid.1])]
+        exact hname
+      | false =>
+        right
+        rw [hnn, hsid.1, hsid.2]
+        exact hadd ss hss hu
+    | deregSvc p n i => simp only [Pres]
+    | deregChk p n k => simp only [Pres]
+    | deregNode p n => simp only [Pres]
+  | _ :: _ :: _, _, hlen => simp at hlen
+
+theorem Pres.snap {c : Cat} {p sn : String} {st : List CSN} {snap : Snap} {is : List Inst} (wf : WF c)
+    (ok : SnapOK sn is) (hs : SnapIs snap is) (hst : csn c p sn = .ok st) (l : List SNode) (hl : ∀ nd ∈ l, nd ∈ snap)
+    {K : String → String → String → Prop} (hK : ∀ n i nm, K0 c p sn n i nm → K n i nm) :
+    Pres K (l.flatMap (regOpsNode p st)) := by
+  induction l generalizing K with
+  | nil => trivial
+  | cons nd rest ih =>
+    simp only [List.flatMap_cons, Pres.append]
+    exact ⟨Pres.node wf ok hs hst (hl nd (by simp)) hK,
+      ih (fun x hx => hl x (by simp [hx])) (fun n i nm h => Or.inl (hK n i nm h))⟩
+
+theorem K0_kco {c : Cat} {p sn : String} {st : List CSN} {snap : Snap} {is : List Inst}
+    (ok : SnapOK sn is) (hs : SnapIs snap is) : KCo (K0 c p sn) (snap.flatMap (regOpsNode p st)) := by
+  rintro r sd n i nm hr ⟨rfl, _, _⟩ hsd _ _
+  obtain ⟨_, _, h2, _⟩ := op_inst hs hr
+  obtain ⟨j, hj, _, e⟩ := h2 sd hsd
+  rw [e]; exact (ok.inst j hj).2.2
+
 /-! ### the catalog after the registration phase -/
 
 /-- what the registration phase guarantees: every received row is stored as received, every other row is an
@@ -214,12 +306,13 @@ structure Phase1 (c c1 : Cat) (p : String) (is : List Inst) : Prop where
   chkKeep : ∀ x ∈ c.chks, (∀ i ∈ is, ∀ k ∈ i.chks, ¬(x.peer = p ∧ x.node = k.node ∧ x.cid = k.cid)) → x ∈ c1.chks
 
 theorem phase1 {c c1 : Cat} {p sn : String} {st : List CSN} {snap : Snap} {is : List Inst} {l1 : List Op}
-    (wf : WF c) (ok : SnapOK sn is) (hs : SnapIs snap is) (fr : Fresh c p is) (nt : NoTheft c p sn is)
+    (wf : WF c) (ok : SnapOK sn is) (hs : SnapIs snap is) (fr : Fresh c p is)
     (hst : csn c p sn = .ok st) (hr : runOps c (snap.flatMap (regOpsNode p st)) = (c1, none, l1)) :
     Phase1 c c1 p is := by
-  have rok := regsOK (st := st) ok hs fr nt
+  have rok := regsOK (c := c) (st := st) ok hs fr
   have hnone : (runOps c (snap.flatMap (regOpsNode p st))).2.1 = none := by rw [hr]
-  obtain ⟨wf1, n1, s1, k1⟩ := runRegs_spec _ c p wf rok hnone
+  obtain ⟨wf1, n1, s1, k1⟩ := runRegs_spec _ c p wf rok (K0 c p sn) (K0_kl c p sn) (K0_kco ok hs)
+    (Pres.snap wf ok hs hst snap (fun _ h => h) (fun _ _ _ h => h)) hnone
   rw [runOps_fst hr] at wf1 n1 s1 k1
   -- every instance sits in the normalised snapshot
   have loc : ∀ i ∈ is, ∃ nd ∈ snap, nd.node = i.node ∧ ∃ ss ∈ nd.svcs, ss.svc = i.svc ∧ ss.chks = i.chks := hs.bwd
